@@ -67,6 +67,7 @@ def run(repo, rep, tier):
     from .c04 import explicit_namespace_wins
     explicit_namespace_wins(repo, rep, 'C10.R18')
     already_exists_means_key_exists(repo, rep)
+    modified_instance_keeps_its_path(repo, rep)
     from ..argorder import argument_order_rule
     argument_order_rule(repo, rep, 'C10.R14', tuple(
         m.relpath for m in repo.modules.values()
@@ -1223,3 +1224,73 @@ def typed_property_transfer(repo, rep):
         node = probe
     if len(untyped_transfers(_F)) != 1:
         raise AnalysisError('C10.R15 recogniser broken')
+
+
+def modified_instance_keeps_its_path(repo, rep):
+    """C10.R20: ProviderDispatcher.ModifyInstance validates the instance
+    named by ModifiedInstance.path and then hands a working copy to the
+    write provider, which updates the store entry under `copy.path`.
+    CIMInstance.__setitem__ propagates a value into path.keybindings when
+    the name is a key (premise, checked in _cim_obj.py): a store
+    `copy[pn] = <value from the class>` for a key property - a key named in
+    PropertyList but not given in the instance is filled with its class
+    default - silently re-targets the copy, and ModifyInstance succeeds on
+    *another* instance.  So every item store on the working copy is
+    governed by a test of the Key qualifier, or takes its value from the
+    stored instance itself."""
+    from ..inline import Flat
+    from ..cfg import stmt_facts
+    r20 = rep.rule('C10.R20', 'the working copy of ModifyInstance is not '
+                   're-targeted by an item store for a key property')
+    obj = repo.cls('pywbem/_cim_obj.py', 'CIMInstance')
+    si = obj.methods.get('__setitem__')
+    premise = si is not None and any(
+        isinstance(a, ast.Assign) and
+        isinstance(a.targets[0], ast.Subscript) and
+        norm(a.targets[0].value) == 'self.path'
+        for a in walk_no_nested(si.node))
+    if not premise:
+        r20.notes.append('CIMInstance.__setitem__ no longer updates '
+                         'self.path: nothing to check')
+        return
+    disp = repo.cls('pywbem_mock/_providerdispatcher.py',
+                    'ProviderDispatcher')
+    f0 = disp.methods.get('ModifyInstance')
+    if f0 is None:
+        raise AnalysisError('ProviderDispatcher.ModifyInstance vanished')
+    f = Flat(f0)
+    r20.functions.add(f0.fq)
+    handed = set()
+    for c in walk_no_nested(f.node):
+        if isinstance(c, ast.Call) and isinstance(c.func, ast.Attribute) and \
+                c.func.attr == 'ModifyInstance' and c.args and \
+                isinstance(c.args[0], ast.Name):
+            handed.add(c.args[0].id)
+    if not handed:
+        raise AnalysisError('ProviderDispatcher.ModifyInstance: call of the '
+                            'provider not found')
+    sf = stmt_facts(f.node)
+    n = 0
+    for st, (facts, _t) in sf.items():
+        if not (isinstance(st, ast.Assign) and len(st.targets) == 1 and
+                isinstance(st.targets[0], ast.Subscript) and
+                isinstance(st.targets[0].value, ast.Name) and
+                st.targets[0].value.id in handed):
+            continue
+        n += 1
+        r20.sites += 1
+        key_tested = any("'key'" in norm(t, 300).lower() or
+                         '"key"' in norm(t, 300).lower() or
+                         'is_key' in norm(t, 300).lower()
+                         for t, _pol in facts)
+        ok = key_tested
+        r20.ob(ok, '%s|%s' % (f0.qualname, norm(st, 60)))
+        if not ok:
+            rep.finding(r20, f0.qualname, norm(st, 70), 'copy-retargeted',
+                        'pywbem_mock/_providerdispatcher.py', st.lineno,
+                        'an item store on the working copy can be for a key '
+                        'property (no test of the Key qualifier governs '
+                        'it): CIMInstance.__setitem__ then rewrites '
+                        'path.keybindings, and the provider modifies the '
+                        'instance with the class default as its key')
+    r20.notes.append('%d item stores on the working copy' % n)
